@@ -5,7 +5,7 @@ import msuite
 
 PID = 'C18'
 TAGS = ['pyuntil', 'pydone', 'pynew', 'pyyield', 'recv', 'pytrig', 'twice', 'pyintr', 'pyend', 'cb', 'addcb', 'latecb', 'pystate', 'pygot', 'log', 'now']
-RULE = ('one usim.py Environment (initial time 0, 1 or 2) run by env.until(None | time | event) or entered with `async with env:` next to '
+RULE = ('one usim.py Environment (initial time -1, 0, 1 or 2; simulation start -1, 0 or 1) run by env.until(None | time (0 included) | event) or entered with `async with env:` next to '
         'native usim activities; 1-5 SimPy processes (some created by other processes) whose generators mix timeouts (delays 0, 1/2, 1, 2, 3 '
         'with ties), waits for shared events / timeouts created earlier / processes / AnyOf / AllOf (also nested, also of events '
         'that already fired), succeed / fail (sometimes twice), interrupts (several at once, of waiting, finished and not yet '
@@ -155,12 +155,12 @@ def native_prog(rng, names, i):
 
 def family(rng):
     names = Names()
-    t0 = rng.choice([0, 0, 0, 1, 2])
+    t0 = rng.choice([0, 0, 0, 1, 2, -1])
     setup = setup_code(rng, names)
     roots = []
     r = rng.random()
     if r < 0.7:
-        u = rng.choice([None, None, ['time', rng.choice([1, 2, 3, F(5, 2), 5, 8])]] +
+        u = rng.choice([None, None, ['time', rng.choice([0, 0, 1, 2, 3, F(5, 2), 5, 8])]] +
                        ([['event', rng.choice(names.of('event', 'timeout', 'proc', 'cond'))]] * 2))
         main = ['prog', ['sleep', rng.choice([0, 0, 1])], ['pyuntil', t0, u, ['setup'] + setup], ['now'], ['log', 90]]
         for x in names.of('event', 'timeout', 'proc', 'cond')[:3]:
@@ -173,7 +173,7 @@ def family(rng):
     if rng.random() < 0.5:
         for i in range(rng.randint(1, 2)):
             roots.append(['prog', ['sleep', rng.choice([F(1, 2), 1, 2])]] + native_prog(rng, names, i)[1:])
-    return ['scenario', ['debug', 1], ['start', rng.choice([0, 0, 1])], ['flags', 1], ['locks', 0], ['roots'] + roots]
+    return ['scenario', ['debug', 1], ['start', rng.choice([0, 0, 0, 1, -1])], ['flags', 1], ['locks', 0], ['roots'] + roots]
 
 
 def nontrivial(impl):
